@@ -515,7 +515,15 @@ class SnapInit(FnSpec):
 def make_specs():
     W = PWorld()
     SW = WalkWorld()
-    return [PollInit(W), PollQueueEvents(W), OnThreadStart(W), Walk(SW), SnapInit(SW)]
+    out = [PollInit(W), PollQueueEvents(W), OnThreadStart(W), Walk(SW), SnapInit(SW)]
+    # "exactly one event per entry of the difference": the difference itself is C09's contract, re-verified here
+    from specs import c09
+    W9 = c09.World()
+    for mode in ("wf0", "laws"):
+        d = c09.DiffInit(W9, mode)
+        d.prop = PROP
+        out.append(d)
+    return out
 
 
 def type_specs(prop):
